@@ -31,12 +31,20 @@ pub mod h_drop {
 pub mod h_wrap {
     include!(concat!(env!("CHUMSKY_VERIF_DIR"), "/h_wrap.rs"));
 }
+pub mod h_misc {
+    include!(concat!(env!("CHUMSKY_VERIF_DIR"), "/h_misc.rs"));
+}
+pub mod h_misc2 {
+    include!(concat!(env!("CHUMSKY_VERIF_DIR"), "/h_misc2.rs"));
+}
 pub fn register_all(r: &mut Vec<(&'static str, fn())>) {
     h_comb::register(r);
     h_prim::register(r);
     h_comb2::register(r);
     h_iter::register(r);
     h_top::register(r);
+    h_misc::register(r);
+    h_misc2::register(r);
     h_wrap::register(r);
     h_drop::register(r);
     h_pratt::register(r);
